@@ -69,10 +69,40 @@ def _obj(a):
     return lift(a).view(np.ndarray) if a.dtype != object else a.view(np.ndarray)
 
 
+REAL_RESULT = {"real", "imag", "abs", "absolute", "angle", "view_as_real", "norm", "vector_norm", "argmax", "argsort", "isnan",
+               "isfinite", "isinf", "lt", "le", "gt", "ge", "eq", "ne", "__lt__", "__le__", "__gt__", "__ge__", "__eq__", "__ne__"}
+
+
+def _isc(x):
+    """does this operand carry a complex dtype (even if its imaginary part happens to be the constant 0)"""
+    if isinstance(x, SymTensor):
+        return bool(x.cplx) or x.is_complex_valued
+    if isinstance(x, torch.Tensor):
+        return x.is_complex()
+    if isinstance(x, np.ndarray):
+        return np.iscomplexobj(x) if x.dtype != object else False
+    if isinstance(x, complex):
+        return True
+    if isinstance(x, (list, tuple)):
+        return any(_isc(y) for y in x)
+    return False
+
+
+def _flag(name, args, r):
+    if isinstance(r, SymTensor) and name not in REAL_RESULT and r.cplx is None:
+        if any(_isc(a) for a in args):
+            r.cplx = True
+    return r
+
+
 class SymTensor:
     __array_priority__ = 2000
+    cplx = None
 
-    def __init__(self, a):
+    def __init__(self, a, cplx=None):
+        if cplx is None and isinstance(a, np.ndarray) and a.dtype != object and np.iscomplexobj(a):
+            cplx = True
+        self.cplx = cplx
         if isinstance(a, S):
             a = np.array(a, dtype=object).reshape(())
         a = np.asarray(a)
@@ -95,7 +125,7 @@ class SymTensor:
         h = HANDLERS.get(name)
         if h is None:
             raise Unsupported(f"torch function '{name}' on a symbolic tensor")
-        return h(*args, **kwargs)
+        return _flag(name, args, h(*args, **kwargs))
 
     # ---- metadata
     @property
@@ -121,13 +151,13 @@ class SymTensor:
 
     @property
     def dtype(self):
-        return torch.complex128 if self.is_complex_valued else torch.float64
+        return torch.complex128 if (self.cplx or self.is_complex_valued) else torch.float64
 
     def is_complex(self):
-        return self.is_complex_valued
+        return bool(self.cplx) or self.is_complex_valued
 
     def is_floating_point(self):
-        return not self.is_complex_valued
+        return not self.is_complex()
 
     @property
     def device(self):
@@ -152,7 +182,7 @@ class SymTensor:
         return self
 
     def clone(self, *a, **k):
-        return SymTensor(self.a.copy())
+        return SymTensor(self.a.copy(), cplx=self.cplx)
 
     def detach(self):
         return self
@@ -213,7 +243,7 @@ class SymTensor:
 
     def __getitem__(self, idx):
         r = self.a[self._ix(idx)]
-        return T(r) if isinstance(r, np.ndarray) else T(r)
+        return _flag("getitem", (self,), T(r))
 
     def __setitem__(self, idx, val):
         v = A(val)
@@ -221,8 +251,8 @@ class SymTensor:
 
     # ---- arithmetic
     def _bin(self, o, f):
-        o = A(o)
-        return T(f(self.a, o))
+        r = T(f(self.a, A(o)))
+        return _flag("bin", (self, o), r)
 
     def __add__(self, o):
         return self._bin(o, lambda a, b: a + b)
@@ -261,6 +291,12 @@ class SymTensor:
 
     def __rpow__(self, b):
         return T(_elem(lambda x: to_S(b) ** to_S(x))(self.a))
+
+    def __mod__(self, o):
+        return T(_elem(lambda x: to_S(x) % o)(self.a))
+
+    def __floordiv__(self, o):
+        return T(_elem(lambda x: to_S(x) // o)(self.a))
 
     def __matmul__(self, o):
         return T(_matmul(self.a, _obj(A(o))))
@@ -316,7 +352,7 @@ class SymTensor:
         h = HANDLERS.get(name)
         if h is None:
             raise Unsupported(f"tensor method '{name}' on a symbolic tensor")
-        return lambda *a, **k: h(self, *a, **k)
+        return lambda *a, **k: _flag(name, (self,) + a, h(self, *a, **k))
 
 
 def _matmul(a, b):
@@ -378,6 +414,8 @@ def _arith(x, y, op, alpha=1):
 
 
 HANDLERS.update({
+    "remainder": lambda x, y, **k: x.__mod__(y), "__mod__": lambda x, y: x.__mod__(y), "fmod": lambda x, y, **k: x.__mod__(y),
+    "floor_divide": lambda x, y, **k: x.__floordiv__(y), "__floordiv__": lambda x, y: x.__floordiv__(y),
     "add": lambda x, y, alpha=1, **k: _arith(x, y, lambda a, b: a + b, alpha), "__add__": lambda x, y: _arith(x, y, lambda a, b: a + b),
     "__radd__": lambda x, y: _arith(x, y, lambda a, b: b + a),
     "sub": lambda x, y, alpha=1, **k: _arith(x, y, lambda a, b: a - b, alpha), "__sub__": lambda x, y: _arith(x, y, lambda a, b: a - b),
@@ -697,12 +735,12 @@ def _nan_to_num(x, *a, **k):
 
 @handler("is_complex")
 def _is_complex(x):
-    return x.is_complex_valued
+    return x.is_complex()
 
 
 @handler("is_floating_point")
 def _is_fp(x):
-    return not x.is_complex_valued
+    return not x.is_complex()
 
 
 @handler("is_tensor")
@@ -821,10 +859,12 @@ def _argmax(x, dim=None, **k):
     a = _obj(A(x)).reshape(-1) if dim is None else None
     if a is None:
         raise Unsupported("argmax over a dim of a symbolic tensor")
-    best = 0
-    for i in range(1, len(a)):
-        if bool(to_S(a[i]) > to_S(a[best])):
-            best = i
+    best = core.unique_argmax(list(a))
+    if best is None:
+        best = 0
+        for i in range(1, len(a)):
+            if bool(to_S(a[i]) > to_S(a[best])):
+                best = i
     return torch.tensor(best)
 
 
